@@ -39,13 +39,29 @@ type keyGen struct {
 func newKeyGen(c *simkit.Choices) *keyGen {
 	n := 1 + c.N(8)
 	g := &keyGen{c: c}
-	long := c.N(4) == 0
+	// key alphabets are structured so that any shortcut in the cache lookup
+	// (prefix, suffix, length, hash of a part) makes two keys collide
+	mode := c.N(7)
+	filler := "system.process.cpu.load.average.per.core.normalized.value.of.the.last.minute"
+	pre := filler[:c.N(len(filler))]
 	for i := 0; i < n; i++ {
-		k := fmt.Sprintf("k%d", i)
-		if long {
-			k = fmt.Sprintf("key-%d-%s", i, "xxxxxxxxxxxxxxxxxxxxxxxxxxxxxxxxxxxxxxxxxxxxxxxxxxxxxxxxxxxxxxxxxxxxxxxx"[:c.N(70)])
-		}
-		if c.N(10) == 0 {
+		var k string
+		switch mode {
+		case 0:
+			k = fmt.Sprintf("k%d", i)
+		case 1: // long common prefix, same length, differing tail
+			k = pre + string(rune('a'+i))
+		case 2: // differing head, long common suffix, same length
+			k = string(rune('a'+i)) + pre
+		case 3: // each key a prefix of the next
+			k = filler[:1+i*(1+c.N(6))%len(filler)]
+		case 4: // differ in one middle byte only
+			b := []byte(pre + "____")
+			b[len(b)/2] = byte('A' + i)
+			k = string(b)
+		case 5: // multi-byte runes, common prefix
+			k = pre[:len(pre)/2] + string([]rune{rune(0x4e2d + i), 0xe9})
+		default:
 			k = model.GenKey(c, 20)
 		}
 		g.alpha = append(g.alpha, k)
